@@ -19,6 +19,7 @@ class Ctx:
         self.b = builder
         self.module = tuple(module)
         self.probe = P.Probe(facts, None, self.module)
+        self.index = {}
 
     def leaf(self, node):
         raise P.NoEval("no text given for %s" % node["t"])
@@ -28,6 +29,10 @@ class Ctx:
 
     def rep(self, node):
         raise P.NoEval("no elements given for a repetition")
+
+    def iterations(self, node):
+        """n: evaluate the repeated parser n times (ctx.index[id(node)] = round); None: ask rep() for the element values"""
+        return None
 
     def ref(self, node):
         raise P.NoEval("no value given for %s" % node.get("fn"))
@@ -79,15 +84,39 @@ def value(node, ctx, depth=0):
     if t == "alt":
         return value(node["alts"][ctx.choice(node)], ctx, depth + 1)
     if t in ("sep", "rep", "reptill"):
-        return ctx.rep(node)
+        n = ctx.iterations(node) if t != "reptill" else None
+        if n is None:
+            return ctx.rep(node)
+        out = []
+        for i in range(n):
+            ctx.index[id(node)] = i
+            out.append(value(node["p"], ctx, depth + 1))
+        ctx.index.pop(id(node), None)
+        return out
     if t == "fold":
         acc = pr.apply(ctx.fn(node["init"]), []) if node["init"].get("k") in ("closure", "path") else pr.ev(node["init"], {})
         step = ctx.fn(node["step"])
-        for x in ctx.rep(node):
+        for x in value(node["p"], ctx, depth + 1):
             acc = pr.apply(step, [acc, x])
         return acc
     if t == "ref":
-        return ctx.ref(node)
+        try:
+            return ctx.ref(node)
+        except P.NoEval:
+            # a helper parser function that only names a parser expression stands for that expression
+            from .args import single_body
+            from . import peg
+
+            fb = peg.Grammar(ctx.b).deref(node)
+            sb = fb["tail"] if fb.get("t") == "fnbody" and not fb["steps"] and not fb["unknown"] and not fb["lets"] and fb.get("tail") is not None else None
+            if sb is None or node.get("extra"):
+                raise
+            old = pr.module
+            pr.module = tuple(ctx.facts.fns[node["fn"]].module)
+            try:
+                return value(sb, ctx, depth + 1)
+            finally:
+                pr.module = old
     if t == "andthen":
         return value(node["inner"], ctx, depth + 1)
     raise P.NoEval("no value semantics for %s" % t)
